@@ -153,6 +153,26 @@ def run(ctx):
             if prob:
                 ctx.violation("C19/parse/" + ("crash" if "exception" in prob else "selection"), prob, {"cmd": "parse", "n": n, "idx": i})
     mixed_section(ctx, tmp)
+    # ---- the global switches (-q, -v, --log-level) concern logging; what the commands print as their result is the same
+    for glob_ in (["-q"], ["-v"], ["--log-level", "ERROR"], ["-q", "-v"]):
+        for n in (0, 3, 11):
+            path = files.get(n) or make_file(tmp, n)
+            rc, out, exc = in_process(glob_ + ["describe-packets", path])
+            want = list(range(n)) if n <= 10 else [0, 1, 2, 3, 4, -1, n - 5, n - 4, n - 3, n - 2, n - 1]
+            ctx.traces += 1
+            ctx.count(("global-switch", tuple(glob_), "describe", n))
+            if rc != 0 or exc is not None or listing_rows(out) != want:
+                ctx.violation("C19/global-switch/describe-packets", f"`spp {' '.join(glob_)} describe-packets` on {n} packets: exit {rc}, rows {listing_rows(out)}, "
+                              f"expected {want}", {"cmd": "describe", "n": n, "global": glob_})
+            if n:
+                for i in (0, n - 1, n):
+                    rc, out, exc = in_process(glob_ + ["parse", path, xt, f"--packet={i}"])
+                    shown = sorted({int(t) - APID0 for toks in table_lines(out) for t in toks if re.fullmatch(r"\d+", t) and APID0 <= int(t) < APID0 + 64})
+                    ctx.traces += 1
+                    ctx.count(("global-switch", tuple(glob_), "parse", n, i))
+                    if rc != 0 or exc is not None or shown != ([i] if i < n else []) or not out.strip():
+                        ctx.violation("C19/global-switch/parse", f"`spp {' '.join(glob_)} parse --packet={i}` on {n} packets: exit {rc}, shows {shown}, "
+                                      f"output {out[:100]!r}", {"cmd": "parse", "n": n, "idx": i, "global": glob_})
     # ---- Shown(n, i) beyond the display limits: files longer than --max-items (default 20), and small explicit limits; the limits
     # shorten what is printed of a packet or of a listing, never which packet an index selects
     for n, opts, idxs in ((30, [], (0, 19, 20, 21, 22, 29, 30, 31)), (45, [], (21, 44, 45)), (7, ["--max-items=4"], (0, 2, 3, 4, 5, 6, 7)),
